@@ -183,8 +183,10 @@ def fmt(e):
         return str(e[1])
     if k == 'str':
         return repr(e[1]).replace("'", '"') if "'" not in e[1] else repr(e[1])
+    if k == 'param' and isinstance(e[1], int):
+        return 'arg%d' % e[1]
     if k in ('param', 'local', 'global', 'func', 'enum'):
-        return e[1]
+        return str(e[1])
     if k == 'zero':
         return '0'
     if k == 'type':
@@ -295,8 +297,12 @@ def canon(e, rename=None):
         if k in ('cast', 'icast'):
             return x[2]
         if k == 'local':
+            if len(x) == 2:
+                return x
             return ('local', rename.get(x[2], x[1]))
         if k == 'param':
+            if len(x) == 2:
+                return x
             return ('param', x[2]) if x[2] >= 0 else x
         if k == 'zero':
             return ('int', 0)
